@@ -57,6 +57,16 @@ CLAIMS['C27'] = dict(
          'option, separate --enable flags) are listed as not decided by this rule, with the reason.',
     design='3/C27', note='Assumes Settings::isPremiumEnabled() is false. Does not decide monotonicity of value-flow itself under --inconclusive, nor the undecided sites listed in rules/C27.py.')
 
+CLAIMS['C16'] = dict(
+    technique='static analysis: lock-set / effect analysis over the call-graph closure of the worker entry (lock scopes, static-storage and mutable-member write census, const-path check)',
+    text='Decides data-race freedom at field granularity for all code reachable from threadProc (3559 functions): fields protected '
+         'by each class mutex (set re-derived per run) are accessed only in lock scopes or lock-held helpers and never returned by '
+         'reference; every static-storage variable mutated in T is const/atomic/mutex/thread_local; mutable members of classes '
+         'shared between workers are synchronisation objects; no const_cast to shared classes and no write through pointer members in '
+         'const methods of shared classes; Check singletons\' entry points write no member; the raw logger is used only under the '
+         'forwarder\'s mutex; no MT-unsafe libc call. Over-approximates schedules (all) and inputs (all code).',
+    design='3/C16', note='Field-level, not alias-level: races through raw pointer aliasing into shared objects, libstdc++ internals and the mutex implementation are not decided. Virtual calls fan out to all overriders except classes constructed only in the process executor (verified per run).')
+
 NOT_APPLICABLE = {
     'C01': 'soundness of inferred values vs. concrete executions of arbitrary programs; needs an executing/symbolic oracle, no structural necessary condition in valueflow.cpp',
     'C02': 'same as C01, for container sizes',
